@@ -94,10 +94,13 @@ static void c16_case(uint64_t idx, rng_t *r) {
         in.model = AM_NMODELS;
         g_colossal = true;
         STAT_INC("c16_colossal_arrays");
+    } else if (idx < g_param[3] && make_huge_input(c, g, r, &in, false)) {
+        STAT_INC("c16_huge_arrays");
+        g_colossal = false;
     } else {
     make_input(c, idx, r, &in);
     }
-    if (!g_colossal && rng_chance(r, 1, 5) && c->domain != DOM_GROUP && c->domain != DOM_STRICT16) { /* counts whose tagged length changes, multiples of 128 */
+    if (!g_colossal && in.n < (1u << 20) && rng_chance(r, 1, 5) && c->domain != DOM_GROUP && c->domain != DOM_STRICT16) { /* counts whose tagged length changes, multiples of 128 */
         static const size_t lens[] = {240, 241, 2287, 2288, 128, 256, 384, 129, 257, 1, 2};
         size_t n = lens[rng_below(r, 11)];
         free(in.base);
